@@ -359,19 +359,35 @@ def _misc_shard(arg):
               "executable('usepic', ['libmain.%(e)s'], libs=[lib])\n"
               "executable('usem', ['math.%(e)s'], link_options=[opts.lib('m')])\n"
               "executable('usepch', ['pchuser.%(e)s'], pch='pch.h')\n"
-              "executable('useinc', ['incuser.%(e)s'], includes=['inc dir'])\n" % dict(e=ext))
+              "executable('useinc', ['incuser.%(e)s'], includes=['inc dir'])\n"
+              "executable('usethread', ['thr.%(e)s'], compile_options=[opts.pthread()], link_options=[opts.pthread()])\n"
+              "extdir = directory('ext lib')\n"
+              "executable('useext', ['extuser.%(e)s'], link_options=[opts.lib_dir(extdir), opts.lib('ext'), "
+              "opts.rpath_dir(extdir.path)])\n" % dict(e=ext))
+    # a library that exists before configure: found through lib_dir + lib, loaded through rpath_dir
+    os.makedirs(os.path.join(src, 'ext lib'))
+    with open(os.path.join(root, 'ext.c'), 'w') as f:
+        f.write('int ext_value(void) { return 7; }\n')
+    subprocess.run(['gcc', '-shared', '-fPIC', os.path.join(root, 'ext.c'), '-o',
+                    os.path.join(src, 'ext lib', 'libext.so')], check=True)
     bfg.write_tree(src, {'build.bfg': script, 'lib.' + ext: xc + LIB_C.strip() + '\n',
                          'libmain.' + ext: LIBMAIN_C.replace('int lib_pic(void);', xc + 'int lib_pic(void);'),
                          'math.' + ext: MATH_C, 'pch.h': '#define FROM_PCH 7\n',
                          'pchuser.' + ext: '#include <stdio.h>\nint main(void){printf("PCH=%d\\n", FROM_PCH);return 0;}\n',
                          'inc dir/inc.h': '#define FROM_INC 9\n',
-                         'incuser.' + ext: '#include <stdio.h>\n#include "inc.h"\nint main(void){printf("INC=%d\\n", FROM_INC);return 0;}\n'})
+                         'incuser.' + ext: '#include <stdio.h>\n#include "inc.h"\nint main(void){printf("INC=%d\\n", FROM_INC);return 0;}\n',
+                         'thr.' + ext: '#include <stdio.h>\n#include <pthread.h>\nstatic void *f(void *p){return p;}\n'
+                                       'int main(void){pthread_t t; pthread_create(&t, 0, f, 0); pthread_join(t, 0);\n'
+                                       '#ifdef _REENTRANT\nprintf("THR=1\\n");\n#else\nprintf("THR=0\\n");\n#endif\nreturn 0;}\n',
+                         'extuser.' + ext: '#include <stdio.h>\n' + xc + 'int ext_value(void);\n'
+                                           'int main(void){printf("EXT=%d\\n", ext_value());return 0;}\n'})
     env = bfg.base_env(extra=ccenv)
     r = bfg.configure(src, bld, 'make', env)
     if r.rc != 0:
         res.append(('pic/lib/pch/include', 'configure fails: ' + r.err[-300:]))
     else:
-        for name, want in (('usepic', 'PIC=1'), ('usem', 'POW='), ('usepch', 'PCH=7'), ('useinc', 'INC=9')):
+        for name, want in (('usepic', 'PIC=1'), ('usem', 'POW='), ('usepch', 'PCH=7'), ('useinc', 'INC=9'),
+                           ('usethread', 'THR=1'), ('useext', 'EXT=7')):
             rc, out = bfg.run_tool(['make', name], bld, env)
             o = ''
             if rc == 0:
